@@ -46,6 +46,10 @@ type Pkg struct {
 	pm         *parseModel
 	api        *apiScope
 	varWritten map[*types.Var]bool
+	// R01.scan's observations of the element cut (scan.go): probes run, first problem
+	scanCutN   int
+	scanCutBad string
+	scanDone   bool
 }
 
 type World struct {
